@@ -382,3 +382,29 @@ Proof.
   assert (Ho : one_to_one []) by (split; intros; contradiction).
   destruct (iso_prods_ok _ _ _ _ Ho E) as (Ho' & _ & Hf). exists ren. auto.
 Qed.
+
+(* ------------------------------------------------------------------------------- *)
+(* 3. name-keyed vs structural lookups                                                *)
+(* ------------------------------------------------------------------------------- *)
+(* on the symbol set K generated names identify symbols: equal names iff same symbol *)
+Definition agree (K : list dsym) : Prop := forall a b, In a K -> In b K -> neqb a b = deqb a b.
+
+Lemma find_agree K tab k : agree K -> incl tab K -> In k K ->
+  find (neqb k) tab = find (deqb k) tab.
+Proof.
+  intros A Hi Hk. induction tab as [|x r IH]; cbn; [reflexivity|].
+  rewrite (A k x Hk (Hi x (or_introl eq_refl))). destruct (deqb k x); [reflexivity|].
+  apply IH. intros y Hy. apply Hi. right. exact Hy.
+Qed.
+
+Lemma resolve_agree K r st : agree K -> incl (x_tab st) K -> incl (keys_of_ref r) K ->
+  (fr_mult r = MPlus -> fr_greedy r = false) ->
+  resolve neqb lkey_name r st = resolve deqb lkey_struct r st.
+Proof.
+  intros A Hi Hk Hg. destruct r as [base m g sep]. cbn in Hg.
+  unfold resolve, make_mult, find_sym, lkey_name, lkey_struct. cbn [fr_base fr_mult fr_greedy fr_sep hm hb hs hg].
+  destruct sep as [s|], m, g; try (specialize (Hg eq_refl); discriminate);
+    cbn in Hk |- *;
+    rewrite ?(find_agree K (x_tab st) _ A Hi) by (apply Hk; cbn; tauto);
+    reflexivity.
+Qed.
